@@ -34,9 +34,14 @@ def locking(R, prog):
                require=lambda st, ev: an.has_lock(st, 'this->rw_lock_', 4096),
                key_fn=lambda ev: P + '.K2:FileCacheStore::do_pwritev:%s-under-RLOCK' % ev.callee().split('::')[-1],
                describe=lambda ev: 'media write / size extension under the store read lock (excluded by whole-file eviction)', min_sites=2, what='media write')
+    wf = G.root
+    woff = K.param(wf, 2)                                   # (iov, iovcnt, offset)
+    wret = K.locals_assigned_from_call(wf, r'::pwritev$')      # the local that holds the media write's result
+    R.require(len(wret) == 1, 'C17: do_pwritev no longer keeps the result of localFile_->pwritev in one local')
+    wret = sorted(wret)[0]
     K.check_at(R, P + '.K11', G, res, lambda ev: ev.kind == 'call' and ev.callee() == FCS + '::addFilledRange',
-               require=lambda st, ev: ev.arg_path(0) == 'offset' and ev.arg_path(1) == 'ret' and any(re.match(r'^G:ret <= 0=F$', k) for k in st) and
-               any(k.startswith('D:ret=') and 'pwritev(' in k for k in st),
+               require=lambda st, ev: ev.arg_path(0) == woff and ev.arg_path(1) == wret and ('G:%s <= 0=F' % wret) in st and
+               any(k.startswith('D:%s=' % wret) and 'pwritev(' in k for k in st),
                key_fn=lambda ev: P + '.K11:FileCacheStore::do_pwritev:filled-range-is-exactly-what-was-written',
                describe=lambda ev: 'the filled-range map records (offset, bytes written) only after a successful write', min_sites=1, what='addFilledRange')
     # pools evict whole files only under WLOCK of that store
@@ -86,16 +91,23 @@ def refill(R, prog):
     f = G.root
     pn = [f.decls[d]['name'] for d in f.j['params']]
     roff, rsize = pn[0], pn[1]
-    srcread = lambda ev: ev.kind == 'call' and (ev.callee() or '').endswith('::preadv2') and 'src_file_' in (ev.recv_path() or '') and 'buffer' in ev.show()
+    BUF = K.one(K.local_names_init_by(f, lambda e, i: e['k'] == 'construct' and 'IOVector' in (e.get('fn') or '') and 'allocator_' in f.show(i)), 'refill buffer (IOVector on the store allocator)', f)
+    RBUF = K.one(K.local_names_init_by(f, lambda e, i: e['k'] == 'construct' and 'IOVector' in (e.get('fn') or '') and (BUF + '.iovec()') in f.show(i)), 'view of the refill buffer', f)
+    RET = K.one(K.locals_assigned_from_call(f, r'RangeLock::try_lock_wait$'), 'result local', f)
+    REFILLING = K.one(K.locals_assigned_from_call(f, r'::load$'), 'sampled refilling counter', f)
+    MAXR = K.one([d['name'] for d in f.decls if d['kind'] == 'staticlocal' and 'int' in (d.get('type') or '')], 'max refilling (static)', f)
+    CN = K.canon({'buffer': BUF, 'refill_buf': RBUF, 'ret': RET, 'refilling': REFILLING, 'max_refilling': MAXR})
+    srcread = lambda ev: ev.kind == 'call' and (ev.callee() or '').endswith('::preadv2') and 'src_file_' in (ev.recv_path() or '') and (ev.arg_show(0) or '') == BUF + '.iovec()'
     locked = lambda ev: ev.kind == 'call' and ev.callee() == 'RangeLock::try_lock_wait'
     unlock = lambda ev: ev.kind == 'call' and ev.callee() == 'RangeLock::unlock' and ev.arg_path(0) == roff and ev.arg_path(1) == rsize
     asyncw = lambda ev: ev.kind == 'call' and (ev.callee() or '').endswith('::thread_create') and 'async_refill' in ev.show()
     cachew = lambda ev: ev.kind == 'call' and ((ev.callee() or '').endswith('::do_pwritev2') or ((ev.callee() or '').endswith('::unpin_wbuf') and ev.f.const(ev.e['args'][1]) == 0))
-    copyout = lambda ev: ev.kind == 'call' and (ev.callee() or '').endswith('::memcpy_to') and 'refill_buf' in (ev.recv_path() or '')
+    copyout = lambda ev: ev.kind == 'call' and (ev.callee() or '').endswith('::memcpy_to') and (ev.recv_path() or '') == RBUF
     seen = an.SeenTracker([('locked', locked), ('read', srcread), ('unlocked', unlock), ('async', asyncw)])
-    res = an.run(G, [seen, an.GuardTracker(lambda k: ((re.search(r'(^|[^\w.>])ret($|[^\w])', k) is not None or 'preadv2(buffer' in k or 'try_lock_wait' in k) or k.startswith('refilling <')) and 'tr.' not in k, def_names={'ret'})])
+    res = an.run(G, [seen, an.GuardTracker(lambda k: ((re.search(r'(^|[^\w.>])%s($|[^\w])' % re.escape(RET), k) is not None or ('preadv2(%s' % BUF) in k or 'try_lock_wait' in k) or k.startswith('%s <' % REFILLING)) and 'tr.' not in k, def_names={RET})])
 
     def full_read(st):
+        st = CN(st)
         return any(re.match(r'^G:\[.*src_file_->preadv2\(buffer.*\] == %s=T$' % re.escape(rsize), k) or
                    re.match(r'^G:%s == \[.*src_file_->preadv2\(buffer.*\]=T$' % re.escape(rsize), k) for k in st)
     K.check_at(R, P + '.K6', G, res, lambda ev: cachew(ev) or asyncw(ev) or copyout(ev),
@@ -106,10 +118,10 @@ def refill(R, prog):
     K.check_at(R, P + '.K8', G, res, srcread, require=lambda st, ev: 'S:locked' in st and ev.arg_path(2) == roff,
                key_fn=lambda ev: P + '.K8:ICacheStore::do_refill_range:range-locked-before-source-read',
                describe=lambda ev: 'the refill range is locked before the source is read into the refill buffer at refill_off', min_sites=1, what='source read')
-    lockfail = lambda st: any(re.match(r'^G:\[.*try_lock_wait\(.*\)\] < 0=T$', k) or k == 'G:ret < 0=T' for k in st) and 'S:read' not in st
+    lockfail = lambda st: any(re.match(r'^G:\[.*try_lock_wait\(.*\)\] < 0=T$', k) or k == 'G:ret < 0=T' for k in CN(st)) and 'S:read' not in st
     K.check_at(R, P + '.K7', G, res, lambda ev: ev.kind == 'exit',
                require=lambda st, ev: 'S:locked' not in st or (lockfail(st) and 'S:unlocked' not in st) or
-               (not lockfail(st) and ('S:unlocked' in st or 'S:async' in st or any(re.match(r'^G:refilling < max_refilling=T$', k) for k in st))),
+               (not lockfail(st) and ('S:unlocked' in st or 'S:async' in st or 'G:refilling < max_refilling=T' in CN(st))),
                key_fn=lambda ev: P + '.K7:ICacheStore::do_refill_range:release-on-every-exit-side',
                describe=lambda ev: 'a failed try_lock_wait exits without unlocking; after a successful one every exit passed the deferred unlock(refill_off, refill_size) '
                                    'or handed the range to async_refill (which side releases is steered by a run-time comparison that is not decided)',
@@ -118,7 +130,7 @@ def refill(R, prog):
                key_fn=lambda ev: P + '.K6:ICacheStore::do_refill_range:unlock-only-what-was-locked', describe=lambda ev: 'unlock only after a successful try_lock_wait', min_sites=1)
     # a short source read is an error
     K.check_at(R, P + '.K7', G, res, lambda ev: ev.kind == 'return' and ev.depth == 0 and ev.f.const(ev.e['sub']) is None or (ev.kind == 'return' and ev.depth == 0 and ev.f.const(ev.e['sub']) not in (-1, -11, None)),
-               require=lambda st, ev: not any(re.match(r'^G:\[.*src_file_->preadv2\(buffer.*\] == %s=F$' % re.escape(rsize), k) or re.match(r'^G:%s == \[.*src_file_->preadv2\(buffer.*\]=F$' % re.escape(rsize), k) for k in st),
+               require=lambda st, ev: not any(re.match(r'^G:\[.*src_file_->preadv2\(buffer.*\] == %s=F$' % re.escape(rsize), k) or re.match(r'^G:%s == \[.*src_file_->preadv2\(buffer.*\]=F$' % re.escape(rsize), k) for k in CN(st)),
                key_fn=lambda ev: P + '.K7:ICacheStore::do_refill_range:short-read-is-an-error',
                describe=lambda ev: 'no success/count return on a path where the source read came back short', min_sites=1, what='non-error returns')
     # async side
@@ -143,12 +155,15 @@ def refill(R, prog):
 
 def clamp(R, prog):
     G = K.build(R, prog, ICS + '::preadv2')
-    trim = lambda ev: ev.kind == 'call' and (ev.callee() or '').endswith('::extract_back') and 'input' in (ev.recv_path() or '')
+    f = G.root
+    INPUT = K.one(K.local_names_init_by(f, lambda e, i: e['k'] == 'construct' and 'IOVector' in (e.get('fn') or '')), 'request vector', f)
+    CN = K.canon({'offset': K.param(f, 2), 'actual_size': K.one(K.locals_defined_only_by(f, r'^this->actual_size_$'), 'snapshot of the known source size', f)})
+    trim = lambda ev: ev.kind == 'call' and (ev.callee() or '').endswith('::extract_back') and (ev.recv_path() or '') == INPUT
     res = an.run(G, [an.GuardTracker(lambda k: True), an.SeenTracker([('trimmed', trim)])])
     look = lambda ev: ev.kind == 'call' and (ev.callee() or '').endswith(('::try_preadv2', '::do_refill_range')) and ev.depth == 0
     K.check_at(R, P + '.K6', G, res, look,
-               require=lambda st, ev: any(re.match(r'^G:offset < actual_size=T$', k) for k in st) and
-               ('S:trimmed' in st or any(re.match(r'^G:\(offset \+ .*\) <= actual_size=T$', k) for k in st)),
+               require=lambda st, ev: 'G:offset < actual_size=T' in CN(st) and
+               ('S:trimmed' in st or any(re.match(r'^G:\(offset \+ .*\) <= actual_size=T$', k) for k in CN(st))),
                key_fn=lambda ev: '%s.K6:ICacheStore::preadv2:clamped-before-%s' % (P, ev.callee().split('::')[-1]),
                describe=lambda ev: 'the request starts below the known source size and is trimmed to it before the cache is consulted', min_sites=3, what='lookup')
     K.check_at(R, P + '.K6', G, res, lambda ev: ev.kind == 'return' and ev.depth == 0 and ev.f.const(ev.e['sub']) == 0,
